@@ -47,6 +47,9 @@ FAMILIES = {
         {'family': 'hostile', 'knobs': {'classes': ['duplicate_request'], 'p_raise': 0.0}, 'quick': 120, 'thorough': 1500, 'first': 100000},
         # ids wrap around and are used again within one connection (id space reduced to 0..7 / 0..15)
         {'family': 'idwrap', 'knobs': {}, 'quick': 300, 'thorough': 5000, 'first': 300000},
+        # ... while subscribers / callers of interactions that ended long ago still tidy up (a late cancel() / request() / future.cancel()
+        # must not touch the stream that has the id by now)
+        {'family': 'idwrap', 'knobs': {'late_actions': True}, 'quick': 300, 'thorough': 5000, 'first': 400000},
     ],
     'C08': [
         {'family': 'tlc', 'knobs': {}, 'quick': 320, 'thorough': 3200, 'first': 500000},
